@@ -46,6 +46,10 @@ G_early == [r \in Two |-> IF r = 1 THEN <<Op("new"), Snd(9), Snd(2), Op("half"),
 GS_early == [r \in Two |-> IF r = 1 THEN <<Ret(3)>>
                                    ELSE <<Op("recv"), Snd(1), Ret(0)>>]
 
+\* sanity check of the liveness properties (must FAIL): without fairness of delivery nothing has to arrive
+UnfairSpec == Init /\ [][Next]_vars /\ WF_vars(Progress)
+              /\ \A r \in RPCs : WF_vars(DrvOK /\ CliOpStart(r)) /\ WF_vars(DrvOK /\ SrvOpStart(r))
+
 NoFaults == {}
 CancelOnly == {"cancel"}
 CloseOnly == {"close"}
